@@ -525,6 +525,14 @@ func (g *gen) hierarchy(i int) ([]entity, []*Profile) {
 		ents[1].cfg.Profile, ents[1].profile = "psub", p
 		profiles = append(profiles, p)
 	}
+	if len(profiles) == 1 && g.chance(6) {
+		// two profiles whose names differ only in capitalisation, and a reference spelled in a third way
+		twin := *profiles[0]
+		twin.Name = "PSub"
+		twin.Exts = append([]PExt{{Ext: Ext{Kind: "custom", Oid: "1.2.3.4.5.6.7", Raw: "!null", Crit: -1}}}, twin.Exts...)
+		profiles = append(profiles, &twin)
+		ents[1].cfg.Profile, ents[1].dangling = "PSUB", true
+	}
 	if g.chance(pchance / 2) {
 		p := g.profileFor("proot", &ents[0].cfg, rk)
 		ents[0].cfg.Profile, ents[0].profile = "proot", p
